@@ -297,6 +297,40 @@ def lastNullability : List ColOpt → Option Bool
       | .notNull => some false
       | _ => none
 
+/-! ### Table-level `PRIMARY KEY (c1, …, cn)` (`Binder::bind_create_table`) -/
+
+/-- `ordered_pks_from_columns`: the index of a column once per PRIMARY KEY option occurrence. -/
+def inlineKeyFrom (n : Nat) : List (List ColOpt) → List Nat
+  | [] => []
+  | c :: cs => List.replicate (pkCount c) n ++ inlineKeyFrom (n + 1) cs
+
+/-- `columns[index].set_nullable(false)`. -/
+def setNotNull : Nat → List (Bool × Bool) → List (Bool × Bool)
+  | _, [] => []
+  | 0, p :: ps => (false, p.2) :: ps
+  | i + 1, p :: ps => p :: setNotNull i ps
+
+/-- `for &index in &ordered_pk_ids { columns[index].set_nullable(false) }`. -/
+def forceNotNull : List Nat → List (Bool × Bool) → List (Bool × Bool)
+  | [], l => l
+  | k :: ks, l => forceNotNull ks (setNotNull k l)
+
+/-- What `bind_create_table` catalogues for a whole table: `cols` = the option list of every column,
+`key` = the column indices of the (first) table-level `PRIMARY KEY (…)` constraint in the order listed.
+More than one inline PRIMARY KEY occurrence, or an inline key together with a table-level one, is
+`NotSupportedTSQL`; a key column that does not exist is `InvalidColumn`. Otherwise every column is
+the fold of its options and EVERY column of the key (inline or table-level) is forced NOT NULL.
+Result: `(is_nullable, is_primary)` per column, or `none` (bind error). `is_primary` is set by the
+inline option only. -/
+def tableCatalogOf (cols : List (List ColOpt)) (key : List Nat) : Option (List (Bool × Bool)) :=
+  let inl := inlineKeyFrom 0 cols
+  if inl.length > 1 then none
+  else if !inl.isEmpty && !key.isEmpty then none
+  else if key.any (fun i => decide (cols.length ≤ i)) then none
+  else
+    let ordered := if inl.isEmpty then key else inl
+    some (forceNotNull ordered (cols.map (optFold (true, false))))
+
 /-- `ArrayImpl::cast` on one value, as INSERT uses it: `Ok(v')` or `Err`. -/
 def castI (t : Ty) (v : IVal) : KOut IVal :=
   match v, t with
